@@ -48,11 +48,16 @@ def check(prog, rep):
 
     # the scan: nested loops over the dictionary
     scan = None
+    via_cells = None
     for s in fn.body:
         if isinstance(s, ast.For) and U(s.iter) == dname:
             inner = [x for x in s.body if isinstance(x, ast.For)]
             if inner and U(inner[0].iter) in (f"{dname}.items()", dname):
                 scan = (s, inner[0])
+            elif inner and isinstance(inner[0].iter, ast.Call) and isinstance(inner[0].iter.func, ast.Attribute) \
+                    and inner[0].iter.func.attr == "get_near_cells":
+                scan = (s, inner[0])
+                via_cells = U(inner[0].iter.func.value)
     if scan is None:
         raise AnalysisError("update_ss_bridges: pairwise scan (nested loops over the partner dictionary) not found")
     outer, inner = scan
@@ -63,7 +68,21 @@ def check(prog, rep):
         alias[U(inner.target.elts[1])] = f"{dname}[{b}]"
     else:
         b = U(inner.target)
-    r4.add("full-pair-scan", True, f"pairs ({a}, {b}) range over all keys x all keys of {dname}", where)
+    if via_cells is None:
+        r4.add("full-pair-scan", True, f"pairs ({a}, {b}) range over all keys x all keys of {dname}", where)
+    else:
+        # candidates come from a neighbour query: it is complete only for pairs closer than the cell size (C14)
+        size = None
+        for st in iter_stmts(fn.body):
+            if isinstance(st, ast.Assign) and U(st.targets[0]) == via_cells and isinstance(st.value, ast.Call) and U(st.value.func).endswith("Cells") and st.value.args:
+                size = try_fold(st.value.args[0], consts)
+        lim = consts.get("BONDED_SS_LIMIT")
+        filled = any(isinstance(c.func, ast.Attribute) and c.func.attr in ("add_cell", "assign_cells") and U(c.func.value) == via_cells for c in calls_in(fn))
+        r4.add("full-pair-scan", isinstance(size, (int, float)) and isinstance(lim, (int, float)) and size >= lim and filled,
+               f"candidate partners come from {via_cells}.get_near_cells, a cell list of size {size}; the query returns every atom closer than the "
+               f"cell size only, but the bonding limit is {lim}: " + ("covered" if isinstance(size, (int, float)) and isinstance(lim, (int, float)) and size >= lim else
+               "two sulfurs within the limit can lie two cells apart and are never compared - detection depends on where the molecule sits in space"),
+               f"pdb2pqr/biomolecule.py:{inner.lineno} (update_ss_bridges)")
 
     # ------------------------------------------------------------------ R3
     r3 = rep.rule("R3", "bonding limit is 2.5 A, compared strictly on the SG-SG distance", floor=2)
@@ -104,6 +123,8 @@ def check(prog, rep):
     skips = [s for s in inner.body if isinstance(s, ast.If) and any(isinstance(x, ast.Continue) for x in s.body)]
     sk = [U(s.test) for s in skips]
     allowed = {f"{a} == {b}", f"{b} == {a}", f"{a} is {b}", f"{dname}[{a}] != []", f"{a} == {b} or {dname}[{a}] != []"}
+    if via_cells is not None and not any(f"{a} == {b}" in x or f"{b} == {a}" in x for x in [U(s_.test) for s_ in inner.body if isinstance(s_, ast.If)]):
+        pass  # get_near_cells never returns the query atom itself (C14.R1 only-self-skipped)
     r1.add("scan-skips", all(x in allowed for x in sk), f"pairs skipped by the scan: {sk}", where)
 
     # ------------------------------------------------------------------ R2
@@ -176,6 +197,7 @@ def check(prog, rep):
                f"pdb2pqr/{f.module.rel}:{n.lineno} ({f.qual})")
 
     # ------------------------------------------------------------------ R6
+    _shared(prog, rep)
     r6 = rep.rule("R6", "CYX and CYM patches remove exactly the thiol hydrogen", floor=2)
     for p in ("CYX", "CYM"):
         P = t.patches.get(p)
@@ -184,6 +206,11 @@ def check(prog, rep):
             continue
         r6.add(f"patch|{p}", P.remove == ["HG"] and not P.atoms and P.applyto == "CYS",
                f"{p}: applyto={P.applyto}, remove={P.remove}, adds={list(P.atoms)}", "pdb2pqr/dat/PATCHES.xml")
+
+
+def _shared(prog, rep):
+    from . import shared
+    shared.rule_patch_isolation(prog, rep, "R7")
 
 
 def _stmt(node):
